@@ -9,18 +9,29 @@ Hand-written on top of `AdeptModel/Generated/Engines.lean` (the engine policy st
   resize, data_range, is_contiguous, operator()(i,j) const / non-const, T(), submatrix_on_diagonal,
   diag_vector, set_location_ / value_at_location_ / advance_location_ (how a special matrix is read when it
   is an operand of an expression), assign_expression_ / assign_inactive_scalar (how it is written when it
-  is the target of a statement), and the row loop of `Array<2>::operator=(expression)`.
+  is the target of a statement), and the row loop of `Array<2>::operator=(expression)`;
+  data_range / is_aliased_ and the two paths of `operator=(Expression)` (temporary copy when the right-hand
+  side is reported as aliased, in-place element-by-element traversal otherwise) for right-hand sides that
+  read the target's own Storage object (`AExpr`, `SM.assignExpr`); the rank-1 counterpart of `Array.h` for
+  `diag_vector` views (`VExpr`, `Vec.assignExpr`; correspondence only).
 
-Raw storage is a function `Int → Int` (element k of the `Storage` object); `base` is `data_ - storage start`.
+Raw storage is a function `Int → Int` (element k of the `Storage` object) wrapped in a one-field structure (a bare
+function type makes the compiled driver re-run a whole statement for every element read); `base` is
+`data_ - storage start`.
 Core Lean only (linked into the `adept_model` driver).
 -/
 namespace Adept.Special
 open Adept.Engines
 
 /-- raw storage: value of element k -/
-abbrev Raw := Int → Int
+structure Raw where
+  get : Int → Int
 
-def Raw.set (d : Raw) (k v : Int) : Raw := fun x => if x = k then v else d x
+instance : CoeFun Raw (fun _ => Int → Int) := ⟨Raw.get⟩
+
+def Raw.set (d : Raw) (k v : Int) : Raw := ⟨fun x => if x = k then v else d x⟩
+
+@[simp] theorem Raw.set_apply (d : Raw) (k v x : Int) : (d.set k v) x = if x = k then v else d x := rfl
 
 /-- the members of a `SpecialMatrix` object -/
 structure SM where
@@ -153,4 +164,166 @@ def view (m : SM) (d : Raw) : List Int :=
   (List.range m.dim.toNat).flatMap (fun (i : Nat) => (List.range m.dim.toNat).map (fun (j : Nat) => m.get d (i : Int) (j : Int)))
 
 end SM
+
+/-! #### right-hand sides that read the target's own storage (self-referential statements) -/
+
+namespace SM
+
+/-- `data_range(data_begin, data_end)`: `data_begin = data_` -/
+def dataBegin (m : SM) : Int := m.base
+
+/-- `data_range`: `data_end = data_ + Engine::data_size(dimension_, offset_) - 1` — a pointer AT the last
+    element, not one past it -/
+def dataEnd (m : SM) : Int := m.base + m.e.data_size m.dim m.offset - 1
+
+/-- `SpecialMatrix::is_aliased_(mem1, mem2)`: `ptr_begin <= mem2 && ptr_end >= mem1` with
+    `(ptr_begin, ptr_end) = data_range` (comparisons literal) -/
+def isAliased (m : SM) (mem1 mem2 : Int) : Bool := decide (m.dataBegin ≤ mem2 ∧ m.dataEnd ≥ mem1)
+
+end SM
+
+/-- an expression whose special-matrix leaves are linked to the SAME Storage object as the target of the
+    statement (they see every store of the running assignment).  A leaf carries its slots of the
+    `ExpressionSize<NArrays> ind` cursor array. -/
+inductive AExpr where
+  | sm (m : SM) (l : SM.Loc)
+  | scale (a : AExpr) (c : Int)
+  | add (a b : AExpr)
+
+namespace AExpr
+
+/-- `ExpressionSize<n_arrays> ind(0)` -/
+def leaf (m : SM) : AExpr := .sm m { l0 := 0, l1 := 0, l2 := 0 }
+
+/-- `Expression::is_aliased(mem1, mem2)`: `BinaryOperation` = `left || right`, `BinaryOpWithScalar` = the array
+    operand, leaf = `SpecialMatrix::is_aliased_` -/
+def isAliased : AExpr → Int → Int → Bool
+  | .sm m _, mem1, mem2 => m.isAliased mem1 mem2
+  | .scale a _, mem1, mem2 => a.isAliased mem1 mem2
+  | .add a b, mem1, mem2 => a.isAliased mem1 mem2 || b.isAliased mem1 mem2
+
+/-- `rhs.set_location(i, ind)` -/
+def setLocation : AExpr → Int → Int → AExpr
+  | .sm m _, i, j => .sm m (m.setLocation i j)
+  | .scale a c, i, j => .scale (a.setLocation i j) c
+  | .add a b, i, j => .add (a.setLocation i j) (b.setLocation i j)
+
+/-- the value part of `rhs.next_value(ind)` (`value_at_location_`), read from the storage as it is NOW -/
+def value : AExpr → Raw → Int
+  | .sm m l, d => m.valueAt d l
+  | .scale a c, d => a.value d * c
+  | .add a b, d => a.value d + b.value d
+
+/-- the cursor part of `rhs.next_value(ind)` (`advance_location_`) -/
+def advance : AExpr → AExpr
+  | .sm m l => .sm m (m.advance l)
+  | .scale a c => .scale a.advance c
+  | .add a b => .add a.advance b.advance
+
+/-- the same expression evaluated over a fixed snapshot `d` of the storage -/
+def bind : AExpr → Raw → RExpr
+  | .sm m _, d => .sm m d
+  | .scale a c, d => .scale (a.bind d) c
+  | .add a b, d => .add (a.bind d) (b.bind d)
+
+end AExpr
+
+namespace SM
+
+/-- inner loop of `assign_expression_` when the right-hand side reads the storage being written:
+    `data_[index] = rhs.next_value(ind); index += index_stride`, `n` times -/
+def assignRowIP (m : SM) : Nat → AExpr → Int → Int → Raw → Raw
+  | 0, _, _, _, d => d
+  | n + 1, rhs, idx, stride, d =>
+    m.assignRowIP n rhs.advance (idx + stride) stride (d.set (m.base + idx) (rhs.value d))
+
+/-- body of the row loop of `assign_expression_<false,false>` for row `i`: `get_row_range`, `rhs.set_location`,
+    inner loop -/
+def assignRowOfIP (m : SM) (rhs : AExpr) (d : Raw) (i : Nat) : Raw :=
+  let i : Int := i
+  let js := m.e.get_row_range_j_start i m.dim m.offset
+  let je := m.e.get_row_range_j_end_plus_1 i m.dim m.offset
+  m.assignRowIP (je - js).toNat (rhs.setLocation i js) (m.e.get_row_range_index_start i m.dim m.offset)
+    (m.e.get_row_range_index_stride i m.dim m.offset) d
+
+/-- `assign_expression_<false,false>(rhs)` in place -/
+def assignInPlace (m : SM) (rhs : AExpr) (d : Raw) : Raw :=
+  (List.range m.dim.toNat).foldl (m.assignRowOfIP rhs) d
+
+/-- `SpecialMatrix::operator=(const Expression&)` (ADEPT_NO_ALIAS_CHECKING not defined):
+    `data_range(ptr_begin, ptr_end); if (rhs.is_aliased(ptr_begin, ptr_end)) { SpecialMatrix copy; copy = rhs;
+    assign_expression_(copy); } else assign_expression_(rhs);`
+    `copy` is an empty matrix of the target's type: `copy = rhs` resizes it to packed storage in a fresh Storage
+    object (so this inner statement is never aliased and nothing it writes is read back by `rhs`), then the target
+    is assigned from `copy`. -/
+def assignExpr (m : SM) (rhs : AExpr) (d : Raw) : Raw :=
+  if rhs.isAliased m.dataBegin m.dataEnd then
+    let c := SM.packed m.e m.dim
+    let dc := c.assign (rhs.bind d) ⟨fun _ => 0⟩
+    m.assign (.sm c dc) d
+  else
+    m.assignInPlace rhs d
+
+end SM
+
+/-! #### `diag_vector` views on both sides of a statement (rank-1 `Array`, include/adept/Array.h) -/
+
+/-- element-wise expressions over rank-1 views of the target's Storage object -/
+inductive VExpr where
+  | vec (v : SM.Vec)
+  | scale (a : VExpr) (c : Int)
+  | add (a b : VExpr)
+
+namespace SM.Vec
+
+/-- `Array<1>::data_range`: `data_end += (dimensions_[0]-1)*offset_[0]` for a non-negative stride, otherwise
+    `data_begin += (dimensions_[0]-1)*offset_[0]` -/
+def dataBegin (v : Vec) : Int := if v.stride ≥ 0 then v.base else v.base + (v.len - 1) * v.stride
+def dataEnd (v : Vec) : Int := if v.stride ≥ 0 then v.base + (v.len - 1) * v.stride else v.base
+
+/-- `Array::is_aliased_` -/
+def isAliased (v : Vec) (mem1 mem2 : Int) : Bool := decide (v.dataBegin ≤ mem2 ∧ v.dataEnd ≥ mem1)
+
+/-- `v(stride(len-1, 0, -1))`: the same elements in reverse order -/
+def rev (v : Vec) : Vec := { base := v.base + (v.len - 1) * v.stride, len := v.len, stride := -v.stride }
+
+end SM.Vec
+
+namespace VExpr
+
+def isAliased : VExpr → Int → Int → Bool
+  | .vec v, mem1, mem2 => v.isAliased mem1 mem2
+  | .scale a _, mem1, mem2 => a.isAliased mem1 mem2
+  | .add a b, mem1, mem2 => a.isAliased mem1 mem2 || b.isAliased mem1 mem2
+
+/-- element `t` of the expression, read from the storage as it is now -/
+def value : VExpr → Raw → Int → Int
+  | .vec v, d, t => d (v.base + t * v.stride)
+  | .scale a c, d, t => a.value d t * c
+  | .add a b, d, t => a.value d t + b.value d t
+
+end VExpr
+
+namespace SM.Vec
+
+/-- loop of `Array<1>::assign_expression_`: `data_[index] = rhs.next_value(ind)` for element `t`, `t+1`, … -/
+def assignFrom (v : Vec) (rhs : VExpr) : Nat → Int → Raw → Raw
+  | 0, _, d => d
+  | n + 1, t, d => v.assignFrom rhs n (t + 1) (d.set (v.base + t * v.stride) (rhs.value d t))
+
+/-- storing the elements of the temporary `copy` -/
+def store (v : Vec) : List Int → Int → Raw → Raw
+  | [], _, d => d
+  | x :: xs, t, d => v.store xs (t + 1) (d.set (v.base + t * v.stride) x)
+
+/-- `Array<1>::operator=(const Expression&)`: `if (rhs.is_aliased(ptr_begin, ptr_end)) { Array copy; copy = rhs;
+    assign_expression_(copy); } else assign_expression_(rhs);` -/
+def assignExpr (v : Vec) (rhs : VExpr) (d : Raw) : Raw :=
+  if rhs.isAliased v.dataBegin v.dataEnd then
+    v.store ((List.range v.len.toNat).map (fun (t : Nat) => rhs.value d (t : Int))) 0 d
+  else
+    v.assignFrom rhs v.len.toNat 0 d
+
+end SM.Vec
+
 end Adept.Special
